@@ -697,6 +697,37 @@ pub fn t_dep_close(p: P, units: u128) -> impl Fn() {
     }
 }
 
+/// T-prepaid-closes: three traders on the same side at 10x; they close one after the other, each
+/// with a profit the vault cannot cover (the insurance fund pre-pays every time, on top of what
+/// is already outstanding), the last one after a deposit / withdrawal of symbolic size
+pub fn t_prepaid_closes(p: P) -> impl Fn() {
+    move || {
+        let mut cfg = p.cfg();
+        let d = cfg.d();
+        cfg.init_ratio = Uint128::new(d / 10);
+        let mut r = p.run_cfg(cfg);
+        p.prefix_mode();
+        let l = Uint128::new(10 * d);
+        let u = 18 + (p.seed % 5) as u128;
+        for who in [ALICE, BOB, CAROL] {
+            let mg = Uint128::new(u * d);
+            let f = funds_for(&r, &p, mg, l);
+            if !r.step(Op::Open { who, side: p.side.clone(), margin: mg, lev: l, limit: Uint128::zero(), funds: f }).tx.ok {
+                return;
+            }
+            r.w.next_block(15);
+        }
+        symrt::set_full(true);
+        r.step(Op::Close { who: ALICE, limit: Uint128::zero() });
+        r.w.next_block(15);
+        r.step(Op::Close { who: BOB, limit: Uint128::zero() });
+        r.w.next_block(15);
+        let a = amount("wd", d, false, 1);
+        r.step(Op::Withdraw { who: CAROL, amount: a });
+        r.step(Op::Close { who: CAROL, limit: Uint128::zero() });
+    }
+}
+
 // ------------------------------------------------------------------------------------------
 // generated histories
 // ------------------------------------------------------------------------------------------
